@@ -37,7 +37,7 @@ package lexer
 //@   loop 1 invariant l.hadWhitespace == (l.pos > old(l.pos))
 //@   loop 1 invariant l.hadNewline == exists(old(l.pos), l.pos, func(k int) bool { return l.input[k] == '\n' })
 //@   loop 1 decreases len(l.input) - l.pos
-//@   property C16 C08
+//@   property C16 C08 C15
 
 //@ func (*Lexer).readIdentifier
 //@   requires l != nil && l.pos >= 1 && l.pos <= len(l.input)
@@ -49,7 +49,7 @@ package lexer
 //@   loop 1 invariant old(l.pos) <= l.pos && l.pos <= len(l.input) && pos == old(l.pos) - 1
 //@   loop 1 invariant forall(old(l.pos), l.pos, func(k int) bool { return IsAlphaNum(l.input[k]) })
 //@   loop 1 decreases len(l.input) - l.pos
-//@   property C16 C08
+//@   property C16 C08 C15
 
 //@ func (*Lexer).readLineComment
 //@   requires l != nil && l.pos >= 1 && l.pos <= len(l.input)
@@ -61,7 +61,7 @@ package lexer
 //@   loop 1 invariant old(l.pos) <= l.pos && l.pos <= len(l.input) && pos == old(l.pos) - 1
 //@   loop 1 invariant forall(old(l.pos), l.pos, func(k int) bool { return notEOL(l.input[k]) })
 //@   loop 1 decreases len(l.input) - l.pos
-//@   property C16 C08
+//@   property C16 C08 C15
 
 //@ func (*Lexer).readBlockComment
 //@   requires l != nil && l.pos >= 1 && l.pos < len(l.input)
@@ -74,7 +74,7 @@ package lexer
 //@   loop 1 invariant forall(old(l.pos) + 1, l.pos - 1, func(k int) bool { return l.input[k] != 0 && !closeAt(l, k) })
 //@   loop 1 invariant ch == ite(l.pos - 1 < len(l.input), l.input[l.pos-1], 0)
 //@   loop 1 decreases len(l.input) + 1 - l.pos
-//@   property C16 C08
+//@   property C16 C08 C15
 
 //@ func (*Lexer).readString
 //@   requires l != nil && l.pos >= 1 && l.pos <= len(l.input) && sep != 0
@@ -86,7 +86,7 @@ package lexer
 //@   loop 1 invariant old(l.pos) <= l.pos
 //@   loop 1 invariant implies(sep != '"', forall(old(l.pos), l.pos, func(k int) bool { return k < len(l.input) && l.input[k] != sep && l.input[k] != 0 }))
 //@   loop 1 decreases len(l.input) - l.pos
-//@   property C16 C08
+//@   property C16 C08 C15
 
 //@ func (*Lexer).readNumber
 //@   requires l != nil && l.pos >= 1 && l.pos <= len(l.input) && l.input[l.pos-1] == ch && (isDigit(ch) || ch == '.')
@@ -114,7 +114,7 @@ package lexer
 //@   loop 5 invariant l.pos <= len(l.input)
 //@   loop 5 invariant pos == old(l.pos) - 1
 //@   loop 5 decreases len(l.input) - l.pos
-//@   property C16 C08
+//@   property C16 C08 C15
 
 //@ func (*Lexer).CurrentLine
 //@   requires wf(l)
@@ -137,27 +137,30 @@ package lexer
 //@   requires wf(l)
 //@   requires @assumed token.tablesOK()
 //@   modifies l.pos, l.hadWhitespace, l.hadNewline, l.lastNewLine, l.lineNumber, map token.interning
-//@   ensures  @C16,C08 wf(l) && token.tablesOK()
-//@   ensures  @C16,C08 nonnil:: result != nil
+//@   ensures  @C16,C08,C15 wf(l) && token.tablesOK()
+//@   ensures  @C16,C08,C15 nonnil:: result != nil
 //@   ensures  monotone:: old(l.pos) <= l.pos
 //@   ensures  progress:: implies(!isEndTok(result), old(l.pos) < l.pos)
 //@   ensures  @C16 sticky:: implies(isEndTok(result), l.pos >= len(l.input) || l.input[l.pos] == 0)
 //@   witness s = l.pos after skipWhitespace#1
 //@   ensures  ws:: tokstart(l, old(l.pos), s) && s < l.pos
-//@   ensures  @C16,C08 kinds:: implies(!isEndTok(result), s < len(l.input) && l.pos <= len(l.input) && (litTok(result) || result.tokenType == token.STRING || result.tokenType == token.LINECOMMENT || result.tokenType == token.ILLEGAL))
-//@   ensures  @C16,C08 literal:: implies(!isEndTok(result) && litTok(result), result.literal == span(l, s, l.pos))
-//@   ensures  @C16,C08 linecomment:: implies(result.tokenType == token.LINECOMMENT, lineCommentOK(l, s, l.pos))
-//@   ensures  @C16,C08 string:: implies(result.tokenType == token.STRING, strTokOK(l, s, l.pos))
+//@   ensures  @C16,C08,C15 kinds:: implies(!isEndTok(result), s < len(l.input) && l.pos <= len(l.input) && (litTok(result) || result.tokenType == token.STRING || result.tokenType == token.LINECOMMENT || result.tokenType == token.ILLEGAL))
+//@   ensures  @C16,C08,C15 literal:: implies(!isEndTok(result) && litTok(result), result.literal == span(l, s, l.pos))
+//@   ensures  @C16,C08,C15 linecomment:: implies(result.tokenType == token.LINECOMMENT, lineCommentOK(l, s, l.pos))
+//@   ensures  @C16,C08,C15 string:: implies(result.tokenType == token.STRING, strTokOK(l, s, l.pos))
 //@   ensures  rawstring:: implies(result.tokenType == token.STRING && l.input[s] == '`', forall(s + 1, l.pos - 1, func(k int) bool { return l.input[k] != '`' && l.input[k] != 0 }))
-//@   ensures  @C16,C08 blockcomment:: implies(result.tokenType == token.BLOCKCOMMENT, l.pos >= s + 2 && l.input[s] == '/' && l.input[s+1] == '*' && commentBody(l, s + 2, l.pos))
-//@   ensures  @C16,C08 illegal:: implies(result.tokenType == token.ILLEGAL, l.pos == s + 1)
-//@   ensures  @C16,C08 end:: implies(isEndTok(result), endOK(l, s))
-//@   ensures  @C16,C08 endmarker:: implies(isEndTok(result), result == l.EOLEOF())
+//@   ensures  @C16,C08,C15 blockcomment:: implies(result.tokenType == token.BLOCKCOMMENT, l.pos >= s + 2 && l.input[s] == '/' && l.input[s+1] == '*' && commentBody(l, s + 2, l.pos))
+//@   ensures  @C16,C08,C15 illegal:: implies(result.tokenType == token.ILLEGAL, l.pos == s + 1)
+//@   ensures  @C16,C08,C15 end:: implies(isEndTok(result), endOK(l, s))
+//@   ensures  @C16,C08,C15 endmarker:: implies(isEndTok(result), result == l.EOLEOF())
 //@   ensures  @C08 newline:: implies(old(l.pos) < len(l.input) && l.input[old(l.pos)] == '\n', l.hadNewline)
 //@   ensures  @C08 lcend:: implies(result.tokenType == token.LINECOMMENT, atLineEnd(l))
+// C15: an end token produced by an unclosed string has consumed the rest of the input (up to a NUL): none of the
+// string's text is lexed as program tokens afterwards, so line mode asks for more input instead of reporting errors.
+//@   ensures  @C15 openstring:: implies(isEndTok(result) && s < len(l.input) && (l.input[s] == '"' || l.input[s] == '`'), l.pos > len(l.input) || l.input[l.pos-1] == 0)
 //@   ensures  atend:: implies(old(l.pos) >= len(l.input) || l.input[old(l.pos)] == 0, isEndTok(result))
-//@   safety C16 C08
-//@   property C16 C08
+//@   safety C16 C08 C15
+//@   property C16 C08 C15
 
 // EOLEOF (C15): the only place where the lexer's mode is consulted (see the read audit in govc/prop_c15.go).
 //@ func (*Lexer).EOLEOF
